@@ -98,6 +98,7 @@ class Ctx:
         self.sets: dict[str, set] = {}
         self.t0 = time.monotonic()
         self.timed_out = False
+        self.min_cases = 0  # cases that are run even if the time budget is already used up (slow start under load)
 
     # ---- iteration -------------------------------------------------------------------------
     def case_rng(self, i, salt=""):
@@ -113,7 +114,7 @@ class Ctx:
             return
         deadline = self.t0 + self.seconds * frac
         for i in range(n):
-            if time.monotonic() > deadline:
+            if time.monotonic() > deadline and i >= self.min_cases:
                 self.timed_out = True
                 break
             self.case_index = i
@@ -226,6 +227,7 @@ def run_worker(prop, tier, seed, worker, nworkers, out, only_case=None):
     mod = load_module(prop)
     n, s = budget_for(mod, tier)
     ctx = Ctx(prop, tier, seed, worker, nworkers, n, s, only_case)
+    ctx.min_cases = getattr(mod, "MIN_CASES", {}).get(tier, 0)
     err = None
     try:
         mod.run(ctx)
